@@ -98,8 +98,10 @@ def check_buffer(model, R, ops):
     gs = model.func(TENSOR + '.grad.setter')
     cfg = CFG(gs.node)
     stores = [n for n in body_walk(gs.node) if isinstance(n, ast.Assign) and any(isinstance(t, ast.Attribute) and t.attr == '_grad' for t in n.targets)]
-    guards = [n for n in body_walk(gs.node) if isinstance(n, ast.If) and 'matches_shape' in norm(n.test) and any(isinstance(x, ast.Raise) for x in n.body)]
-    ok = bool(stores) and bool(guards) and all(cfg.dominates(guards[0], s) for s in stores)
+    gparam = gs.pos_params[1]
+    mapping = {'self.matches_shape(%s)' % gparam: ('M', True), 'self.matches_shape(%s.data)' % gparam: ('M', True), '%s.shape == self.shape' % gparam: ('M', True), 'self.shape == %s.shape' % gparam: ('M', True)}
+    ok, _why = E.guard_table(gs, cfg, mapping, lambda a: not a['M'], stores)
+    ok = ok and bool(stores)
     R.ob('C10.BUFFER', gs.qualname, 'shape check before the store', ok, 'assigning .grad must reject a tensor of a different shape', gs.loc)
 
 
@@ -115,28 +117,22 @@ class _Sub:
 
 
 def check_matches_shape(model, R):
-    R.rule('C10.SEEDSHAPE', 'matches_shape compares the rank and every extent', floor=1)
+    """matches_shape evaluated (sa/peval.py) on concrete shape pairs: equal iff same rank and same extents"""
+    from sa.peval import PE
+    from sa.poly import P
+    R.rule('C10.SEEDSHAPE', 'matches_shape compares the rank and every extent (evaluated on concrete shape pairs)', floor=1)
     f = model.func(TENSOR + '.matches_shape')
     other = f.pos_params[1]
-    src = norm(f.node)
-    rets = [n for n in body_walk(f.node) if isinstance(n, ast.Return)]
-    ok = False
-    # idiom (a): return tuple equality
-    for r in rets:
-        if isinstance(r.value, ast.Compare) and len(r.value.ops) == 1 and isinstance(r.value.ops[0], ast.Eq) and 'shape' in norm(r.value.left) and 'shape' in norm(r.value.comparators[0]) \
-                and 'len(' not in norm(r.value):
-            ok = len(rets) == 1
-    # idiom (b): rank test + zip loop
-    rank = [n for n in body_walk(f.node) if isinstance(n, ast.If) and isinstance(n.test, ast.Compare) and isinstance(n.test.ops[0], ast.NotEq) and norm(n.test).count('len(') == 2
-            and n.body and isinstance(n.body[0], ast.Return) and isinstance(n.body[0].value, ast.Constant) and n.body[0].value.value is False]
-    loops = [n for n in body_walk(f.node) if isinstance(n, ast.For) and isinstance(n.iter, ast.Call) and dotted(n.iter.func) == 'zip' and len(n.iter.args) == 2
-             and all('shape' in norm(a) for a in n.iter.args) and isinstance(n.target, ast.Tuple) and len(n.target.elts) == 2]
-    if rank and loops:
-        lp = loops[0]
-        a, b = norm(lp.target.elts[0]), norm(lp.target.elts[1])
-        inner = [n for n in ast.walk(lp) if isinstance(n, ast.If) and isinstance(n.test, ast.Compare) and isinstance(n.test.ops[0], ast.NotEq)
-                 and {norm(n.test.left), norm(n.test.comparators[0])} == {a, b} and isinstance(n.body[0], ast.Return) and isinstance(n.body[0].value, ast.Constant) and n.body[0].value.value is False]
-        last = f.node.body[-1]
-        cfg = CFG(f.node)
-        ok = bool(inner) and isinstance(last, ast.Return) and isinstance(last.value, ast.Constant) and last.value.value is True and cfg.dominates(rank[0], lp)
-    R.ob('C10.SEEDSHAPE', f.qualname, 'rank test + per-extent comparison', ok, 'a seed gradient of another rank or extent must not match', f.loc)
+    cases = [((2, 3), (2, 3), True), ((2, 3), (2, 4), False), ((2, 3), (3, 3), False), ((2, 3), (2, 3, 1), False), ((2, 3, 1), (2, 3), False), ((2, 3), (2,), False), ((), (), True), ((), (1,), False), ((4,), (4,), True), ((1, 3), (2, 3), False), ((2, 1), (2, 3), False), ((2, 3), (1, 3), False), ((2, 3), (2, 1), False), ((1,), (), False)]
+    bad = []
+    for sa_, sb, want in cases:
+        try:
+            outs = PE(model, atoms={'self.shape': tuple(sa_), '%s.shape' % other: tuple(sb), 'self.ndim': len(sa_), '%s.ndim' % other: len(sb), 'self.data.shape': tuple(sa_), '%s.data.shape' % other: tuple(sb)},
+                      atoms_not_none=True).paths(f, {other: P.atom(other)})
+        except Incomplete as u:
+            R.incomplete_at('C10.SEEDSHAPE', f.qualname, '%s vs %s: %s' % (sa_, sb, u))
+            return
+        got = [o.value for o in outs if o.kind == 'return']
+        if len(outs) != 1 or got != [want]:
+            bad.append('%s vs %s -> %s' % (sa_, sb, [(o.kind, o.value) for o in outs]))
+    R.ob('C10.SEEDSHAPE', f.qualname, 'rank test + per-extent comparison (%d shape pairs)' % len(cases), not bad, 'a seed gradient of another rank or extent must not match: %s' % bad[:3], f.loc)
